@@ -110,6 +110,7 @@ def NewTypeT(name, c): return Ty("NewType", (), (name, c))
 def TypeOf(t): return Ty("TypeOf", (t,))
 def CallableT(): return Ty("Callable")
 def AtMost(t): return Ty("AtMost", (t,))  # some unknown subset of t
+def Refine(t, checks): return Ty("Refine", (t,), tuple(checks))  # t restricted by (op, bound) checks, e.g. ("maxlen", 2)
 
 
 # ---------------------------------------------------------------------------
@@ -236,6 +237,30 @@ def member(o, t: Ty) -> Optional[bool]:
         return or3(member(o, a) for a in t.args)
     if k == "AtMost":
         return False if member(o, t.args[0]) is False else None
+    if k == "Refine":
+        base = member(o, t.args[0])
+        if base is False:
+            return False
+        res = [base]
+        for op, bound in t.extra:
+            try:
+                if op == "minlen":
+                    res.append(len(o) >= bound)
+                elif op == "maxlen":
+                    res.append(len(o) <= bound)
+                elif op == "gt":
+                    res.append(bool(o > bound))
+                elif op == "ge":
+                    res.append(bool(o >= bound))
+                elif op == "lt":
+                    res.append(bool(o < bound))
+                elif op == "le":
+                    res.append(bool(o <= bound))
+                else:
+                    res.append(None)
+            except Exception:
+                res.append(None)
+        return and3(res)
     if k == "List":
         return isinstance(o, list) and and3(member(e, t.args[0]) for e in o)
     if k == "Set":
@@ -476,6 +501,10 @@ def render(t: Ty, style: int = 0) -> str:
         return f"{('type', 'Type')[style]}[{r(t.args[0])}]"
     if k == "Callable":
         return "Callable[..., Any]"
+    if k == "Refine":
+        return f"Annotated[{r(t.args[0])}, {', '.join(f'{op}:{b}' for op, b in t.extra)}]"
+    if k == "AtMost":
+        return f"<some subtype of {r(t.args[0])}>"
     raise ValueError(f"cannot render {k}")
 
 
@@ -503,7 +532,15 @@ def from_value(v) -> Ty:
     from pyanalyze import value as V
 
     if isinstance(v, V.AnnotatedValue):
-        return from_value(v.value)
+        inner = from_value(v.value)
+        checks = []
+        for ext in v.metadata:
+            cc = getattr(ext, "custom_check", None)
+            name = type(cc).__name__ if cc is not None else ""
+            op = {"MinLen": "minlen", "MaxLen": "maxlen", "Gt": "gt", "Ge": "ge", "Lt": "lt", "Le": "le"}.get(name)
+            if op is not None and isinstance(getattr(cc, "value", None), (int, float)):
+                checks.append((op, cc.value))
+        return Refine(inner, checks) if checks else inner
     if isinstance(v, V.AnyValue):
         return ANY
     if isinstance(v, V.KnownValue):
@@ -577,6 +614,8 @@ def is_informative(t: Ty) -> bool:
     """False for Any/object/Opaque-only terms (a membership verdict against them says nothing)."""
     if t.kind in ("Any", "Object", "Opaque"):
         return False
+    if t.kind == "Refine":
+        return True
     if t.kind == "Union":
         return all(is_informative(a) for a in t.args)
     return True
